@@ -116,11 +116,12 @@ def rule_a(ctx):
     ctx.floor("C14-A", "insert_child(marker, …) calls", n, 2)
     # the fragment name comes from an attribute value selected by id / name
     consts = set()
-    for bb, ct in pdn.calls(lambda cd, t: callee_method(t) in ("eq", "ne")):
-        for a in ct["args"]:
-            for x in pdn.atoms(a, through_calls=False):
-                if x[0] == "const":
-                    consts.add(x[1])
+    for b2 in bodies:  # the test may sit in a closure (`attrs.iter().find(|a| a.name.local == "id" ..)`)
+        for bb, ct in b2.calls(lambda cd, t: callee_method(t) in ("eq", "ne")):
+            for a in ct["args"]:
+                for x in b2.atoms(a, through_calls=False):
+                    if x[0] == "const":
+                        consts.add(x[1])
     ctx.check(any('"id"' in c for c in consts) and any('"name"' in c for c in consts), "C14-A",
               "fragment-from-id-or-name", pdn.span, pdn.id, "attribute-name comparisons found: %s" %
               sorted(c for c in consts if c.startswith('"'))[:12])
@@ -280,8 +281,16 @@ def rule_c(ctx):
     takes = [(bb, t) for bb, t in al.calls(lambda cd, t: ends(cd, "std::mem::take"))
              if has_field(al.atoms(t["args"][0]), SUBR, "pending_frags")]
     pushes = al.calls(lambda cd, t: ends(cd, "TaggedLine::<T>::push"))
-    okc = len(takes) == 1 and len(pushes) == 2
-    if ctx.check(okc, "C14-C", "add_line:take-and-push", al.span, al.id, "takes=%d pushes=%d" % (len(takes), len(pushes))):
+    chains = al.calls(lambda cd, t: callee_method(t) == "chain")
+    if len(takes) == 1 and len(pushes) == 1 and len(chains) == 1:
+        # one loop over `pending fragments .chain(line parts)`: same order
+        ct = chains[0][1]
+        a0, a1 = al.atoms(ct["args"][0]), al.atoms(ct["args"][1])
+        okc = has_call(a0, "std::mem::take") and has_field(a0, SUBR, "pending_frags") and ("arg", 2) in a1 and \
+            not has_call(a1, "std::mem::take") and has_call(al.atoms(pushes[0][1]["args"][1]), "Iterator>::next", "Iterator::next")
+        ctx.check(okc, "C14-C", "add_line:fragments-before-line-parts", al.span, al.id,
+                  "the pending fragments must come first in the chained iteration, the line's own parts second")
+    elif ctx.check(len(takes) == 1 and len(pushes) == 2, "C14-C", "add_line:take-and-push", al.span, al.id, "takes=%d pushes=%d" % (len(takes), len(pushes))):
         frag_push = [p for p in pushes if has_call(al.atoms(p[1]["args"][1]), "std::mem::take")]
         part_push = [p for p in pushes if not has_call(al.atoms(p[1]["args"][1]), "std::mem::take")]
         okc = len(frag_push) == 1 and len(part_push) == 1 and \
@@ -384,9 +393,21 @@ def rule_e(ctx):
     # to_string variants skip markers: they only push Str contents
     for nm in ("TaggedLine::<T>::to_string",):
         b = F.one(nm)
+        # the text comes from TaggedString.s and nothing is taken from a FragmentStart payload (loop + push_str or an
+        # iterator chain over tagged_strings(): both read only the Str elements)
+        bodies2 = [b] + [cb for _bb, cb in transitive_closures(F, b)]
+        reads_s = False
+        reads_frag = False
+        for b2 in bodies2:
+            for (_bb, _w, pl, _acc) in b2.all_places():
+                if any(isinstance(e, dict) and e.get("n") == "s" and ends(e.get("o"), "TaggedString") for e in pl["p"]):
+                    reads_s = True
+                if any(isinstance(e, dict) and e.get("dc") == "FragmentStart" for e in pl["p"]) and \
+                        any(isinstance(e, dict) and "f" in e for e in pl["p"]):
+                    reads_frag = True
         ps = b.calls(lambda cd, t: callee_method(t) == "push_str")
-        okc = bool(ps) and all(has_field(b.atoms(p[1]["args"][1]), "TaggedString", "s") for p in ps)
-        ctx.check(okc, "C14-E", "to_string:only-Str-text", b.span, b.id, "")
+        okc = reads_s and not reads_frag and all(has_field(b.atoms(p[1]["args"][1]), "TaggedString", "s") for p in ps)
+        ctx.check(okc, "C14-E", "to_string:only-Str-text", b.span, b.id, "reads TaggedString.s: %s, reads a marker's name: %s" % (reads_s, reads_frag))
     # size estimate of FragStart is the default (zero)
     cse = F.one("RenderNode::calc_size_estimate")
     d2 = find_dispatch(cse, "RenderNodeInfo", 10)
